@@ -25,7 +25,12 @@ func H_C17_Sequence() {
 	// model: indices into pool, primary first
 	var model []int
 	var ring *Keyring
-	switch vPick(4) {
+	switch vPick(5) {
+	case 4:
+		// the same secondary key passed twice, the primary listed among the secondaries as well
+		r, err := NewKeyring([][]byte{pool[1], pool[0], pool[1]}, pool[0])
+		vAssert(err == nil, "c17.new.duplicates-collapsed")
+		ring, model = r, []int{0, 1}
 	case 0:
 		r, err := NewKeyring(nil, nil)
 		vAssert(err == nil, "c17.new.empty-ok")
